@@ -113,6 +113,12 @@ func (s *Log) spacingAtLevel(level int, roundOut bool) (firstN, lastN, ebase flo
 
 	// Compute the effective base at this level.
 	ebase = math.Pow(float64(s.Base), math.Pow(2, float64(level)))
+	if math.IsInf(ebase, 1) {
+		// The logarithms below would collapse to zero and
+		// lose their signs. Any base beyond every finite
+		// value selects the same ticks.
+		ebase = math.MaxFloat64
+	}
 	lmin, lmax := logb(min, ebase), logb(max, ebase)
 
 	// Add a tiny bit of slack to the floor and ceiling so that
